@@ -7,7 +7,7 @@ Open Scope Z_scope.
 
 Definition civil_from_days (z : Z) : Z * Z * Z :=
   let z := z + 719468 in
-  let era := (if z >=? 0 then z else z - 146096) / 146097 in
+  let era := z / 146097 in   (* floor division: Z's own / (the correction z - 146096 belongs to truncating division) *)
   let doe := z - era * 146097 in
   let yoe := (doe - doe / 1460 + doe / 36524 - doe / 146096) / 365 in
   let y := yoe + era * 400 in
